@@ -24,6 +24,10 @@ theorem bodyEvents_sameHs {base : List Interaction} {st st2 : St PyLite.World Py
 theorem eventsKit (sc : String → Bool) (hk : Option Cfg) (base : List Interaction) :
     InvKit ({ host := PyLite.hostObs, sc := sc, hk := hk } : Env PyLite.World PyLite.HState)
       (BodyEvents base) (fun _ => True) where
+  nUser := fun x hx => by simp [bodyName, hx]
+  nValue := by decide
+  nYield := by decide
+  nReceive := by decide
   int := fun _ => trivial
   str := fun _ => trivial
   noneV := trivial
@@ -134,7 +138,7 @@ theorem events_of_activation (sc : String → Bool) (cfg : Cfg)
     simp only [hookMetas]
     rw [bind_def_M, hookMeta_rec sc cfg "#enter" (some enterAnn) (.bool true) hE (by simp) st0]
     rfl
-  have hinner := inv_runInner (eventsKit sc (some cfg) (st0.hs.events ++ [enterEv])) fuel f hf (fun _ _ _ _ => trivial)
+  have hinner := inv_runInner (eventsKit sc (some cfg) (st0.hs.events ++ [enterEv])) bodyName_marks fuel f hf (fun _ _ _ _ => trivial)
     { st0 with hs := { st0.hs with events := st0.hs.events ++ [enterEv] } } ⟨[], by simp, by intro i hi; simp at hi⟩
   have hcoreEq : runCore env fuel f st0
       = runInner env fuel f { st0 with hs := { st0.hs with events := st0.hs.events ++ [enterEv] } } := by
